@@ -141,6 +141,13 @@ func matchFlowRow(rows []flowRow, fnName, method string, args []string) (int, st
 // matchThroughCallers: f has no row of its own; every consensus caller's instantiation of the call (f's parameter
 // tokens replaced by the caller's argument terms) must match a row of that caller.
 func matchThroughCallers(r *core.Run, rows []flowRow, f *ssa.Function, method string, args []string) (int, bool) {
+	return matchThroughCallersD(r, rows, f, method, args, 0)
+}
+
+func matchThroughCallersD(r *core.Run, rows []flowRow, f *ssa.Function, method string, args []string, depth int) (int, bool) {
+	if depth > 3 {
+		return -1, false
+	}
 	found := -1
 	n := 0
 	for _, caller := range r.P.CG.In[f] {
@@ -175,7 +182,12 @@ func matchThroughCallers(r *core.Run, rows []flowRow, f *ssa.Function, method st
 			}
 			m, _ := matchFlowRow(rows, r.P.Name(caller), method, inst)
 			if m < 0 {
-				return -1, false
+				// the caller may itself be a helper of a tabled function
+				m2, ok := matchThroughCallersD(r, rows, caller, method, inst, depth+1)
+				if !ok {
+					return -1, false
+				}
+				m = m2
 			}
 			found = m
 		}
